@@ -175,6 +175,37 @@ pub fn grid(seed: u64, tier: Tier) -> Vec<(String, Logical)> {
         };
         out.push(("many-contents-loose-none".to_string(), logical));
     }
+    // one CRC-protected block above 16 MiB (a plain value store of 72 keys of 250 000 bytes): the
+    // size class of real archives' entry and value stores, where "too large to bring into
+    // memory at once" paths would be taken
+    {
+        let mut rng = Rng::derive(seed, "grid-hugevalues", k);
+        let n = 72;
+        let contents: Vec<ContentSpec> = (0..n)
+            .map(|i| ContentSpec {
+                bytes: Arc::new(gen_bytes(&mut rng, i, 1 + i % 5, Flavor::Constant)),
+                hint: Hint::No,
+                src: SrcKind::Cursor,
+                pack: 1,
+            })
+            .collect();
+        let logical = Logical {
+            comp: Comp::None,
+            packaging: Packaging::Loose,
+            n_packs: 1,
+            contents,
+            schema: SchemaSpec {
+                key_prefix: 1,
+                store: StoreKind::Plain,
+                variants: false,
+                key_pad: 250_000,
+            },
+            dedup: false,
+            aux_seed: rng.next_u64(),
+            opts: Default::default(),
+        };
+        out.push(("huge-values-loose-none".to_string(), logical));
+    }
     if tier == Tier::Thorough {
         // seeded larger images
         for j in 0..96u64 {
